@@ -103,10 +103,62 @@ def spec_integral(spec):
     return all(float(v).is_integer() for v in vals)
 
 
-def build(spec):
+class Pool:
+    """The arrays the *caller* owns in one case.  `get(values)` hands out the very same ndarray object
+    whenever the values are equal, so that a spec with equal axes / delta == zero / weights equal to a
+    coordinate column / a second grid with the same arrays is built from aliased inputs.  The oracle
+    then requires that no operation on any grid ever changes one of these arrays."""
+
+    def __init__(self):
+        self.keys = []
+        self.arrays = []
+        self.emitted = 0
+
+    def index(self, values):
+        key = tuple(float(v) for v in values)
+        for k, kk in enumerate(self.keys):
+            if kk == key:
+                return k
+        self.keys.append(key)
+        self.arrays.append(np.array(key, dtype='float64'))
+        return len(self.keys) - 1
+
+    def get(self, values):
+        return self.arrays[self.index(values)]
+
+    def changed(self):
+        """indices of caller arrays whose content is no longer what the caller put there"""
+        out = []
+        for k, (key, arr) in enumerate(zip(self.keys, self.arrays)):
+            if arr.shape != (len(key),) or not np.array_equal(arr, np.array(key, dtype='float64')):
+                out.append(k)
+        return out
+
+    def pending_lines(self, prop):
+        lines = ['%s arr %s' % (prop, rat_list(list(k))) for k in self.keys[self.emitted:]]
+        self.emitted = len(self.keys)
+        return lines
+
+
+def build(spec, pool=None):
     """Construct the hcipy grid of a spec.  `int`: integer dtype arrays where all values are integral
-    (an independently constructed grid with identical coordinates)."""
+    (an independently constructed grid with identical coordinates).  `shared` (with a pool): every
+    float array handed to the constructors comes from the caller's pool, i.e. equal arrays are the
+    same object."""
     import hcipy
+    if pool is not None and spec.get('shared') and not spec.get('int'):
+        if spec['kind'] == 'reg':
+            d, n, z = spec['data']
+            coords = hcipy.RegularCoords(pool.get(d), np.array(n, dtype='int64'), pool.get(z))
+        elif spec['kind'] == 'sep':
+            coords = hcipy.SeparatedCoords([pool.get(a) for a in spec['data']])
+        else:
+            coords = hcipy.UnstructuredCoords([pool.get(a) for a in spec['data']])
+        w = spec['w']
+        if isinstance(w, list):
+            w = pool.get(w)
+        cls = hcipy.CartesianGrid if spec['sys'] == 'c' else hcipy.PolarGrid
+        return cls(coords, w)
     dt = 'int64' if spec.get('int') else 'float64'
     if spec['kind'] == 'reg':
         d, n, z = spec['data']
@@ -138,6 +190,46 @@ def coords_text(kind, data):
 
 def new_line(prop, spec):
     return '%s new %s %s %s' % (prop, spec['sys'], coords_text(spec['kind'], spec['data']), w_text(spec['w']))
+
+
+def new_lines(prop, spec, pool=None):
+    """Model requests constructing the grid of `spec`: from values, or (shared specs) from the caller
+    arrays of the pool by index — preceded by the registration of arrays the model has not seen yet."""
+    if pool is None or not spec.get('shared') or spec.get('int'):
+        return [new_line(prop, spec)]
+    if spec['kind'] == 'reg':
+        d, n, z = spec['data']
+        c = 'reg %d %s %d' % (pool.index(d), '[' + ','.join(str(int(v)) for v in n) + ']', pool.index(z))
+    else:
+        c = '%s [%s]' % (spec['kind'], ','.join(str(pool.index(a)) for a in spec['data']))
+    w = spec['w']
+    wt = '-' if w is None else ('@%d' % pool.index(w)) if isinstance(w, list) else 's:' + rat(w)
+    return pool.pending_lines(prop) + ['%s newfrom %s %s %s' % (prop, spec['sys'], c, wt)]
+
+
+def make_shared(rng, spec):
+    """Turn a spec into one whose constructor inputs alias each other: equal axes (the same array
+    for several axes), delta == zero, weights equal to a coordinate column."""
+    spec['shared'] = True
+    r = rng.random()
+    if spec['kind'] == 'reg':
+        if r < 0.6:
+            spec['data'][2] = list(spec['data'][0])            # zero is the same array as delta
+    else:
+        axes = spec['data']
+        if r < 0.55:
+            spec['data'] = [list(axes[0]) for _ in axes]         # square grid: one array for all axes
+        elif r < 0.75 and len(axes) == 3:
+            spec['data'] = [axes[0], axes[1], list(axes[0])]
+    if spec['kind'] != 'reg' and rng.random() < 0.3:
+        size = spec_size(spec)
+        for a in spec['data']:
+            if len(a) == size:
+                spec['w'] = list(a)                              # weights are a coordinate array
+                break
+    if isinstance(spec['w'], list) and len(spec['w']) != spec_size(spec):
+        spec['w'] = None
+    return spec
 
 
 # ---------------------------------------------------------------------------------------------
